@@ -26,6 +26,8 @@ def harnesses():
         'H7-numpy-reader': dict(ctype='numpy', old=True, callers=[('A', 'force', None), ('G', 'get', None)]),
         'H8-frame-reader': dict(ctype='frame', old=True, callers=[('A', 'force', None), ('B', 'goc', None)]),
         'H6-two-writers-reader': dict(ctype='json', old=False, callers=[('A', 'goc', None), ('B', 'force', None)]),
+        # lock hand-over A -> reader -> B: A and B both miss, A stores and returns, a reader that starts then is loading while B (queued behind A) stores
+        'H10-handover': dict(ctype='json', old=False, callers=[('A', 'goc', None), ('B', 'goc', None), ('G', 'get', 'A')]),
     }
 
 
@@ -213,6 +215,83 @@ def _write_open_at(trace, idx, name):
     return bool(open_by - {name})
 
 
+KEYS2 = ('key-81', 'key-375')   # sha256 of both starts with d63ad: same bucket directory, different entries
+
+
+def execute_two_keys(choices, ctype='json'):
+    """two callers, two DIFFERENT keys that live in one bucket directory: neither call disturbs the other"""
+    d = scratch.fresh('c15k')
+    try:
+        run_holder = []
+
+        def body_for(name, key):
+            def body():
+                c = make_cache(ctype, d)
+
+                def comp():
+                    run_holder[0].point('compute', name)
+                    return _value(ctype, name)
+                return c.get_or_compute(key, comp)
+            return body
+        run = sched.Run(d, [('A', body_for('A', KEYS2[0]), None), ('B', body_for('B', KEYS2[1]), None)], choices)
+        run_holder.append(run)
+        with sched.armed():
+            run.execute()
+        finals = {}
+        for name, key in zip('AB', KEYS2):
+            try:
+                v = make_cache(ctype, d).get(key)
+                finals[name] = _who(ctype, v)
+            except Exception as e:  # noqa
+                finals[name] = f'raised {type(e).__name__}'
+        return run, finals
+    finally:
+        scratch.drop(d)
+
+
+def judge_two_keys(run, finals, ctype='json'):
+    out = []
+    if run.deadlock:
+        return [('deadlock', f'no enabled caller: {run.deadlock}')]
+    for w in run.workers:
+        st, val = w.result
+        if st == 'exc':
+            if isinstance(val, HarnessError):
+                raise val
+            out.append(('call on one key failed because of a call on another key', f'caller {w.name} raised {type(val).__name__}: {val}'))
+        elif _who(ctype, val) != w.name:
+            out.append(('call on one key returned the value of another key', f'caller {w.name} got {val!r}'))
+    for name in 'AB':
+        if finals[name] != name:
+            out.append(('entry of one key holds the value of another key (or nothing) at quiescence', f'key of {name}: {finals[name]!r}'))
+    return out
+
+
+def _explore_two_keys(args):
+    import tcv
+
+    tcv.quiet_library()
+    bound, ctype = args
+    res = Result()
+
+    def make(choices):
+        run, finals = execute_two_keys(choices, ctype)
+        run._finals = finals
+        return run
+    n = 0
+    for run in sched.explore(make, bound):
+        n += 1
+        res.add('evaluations')
+        res.add('transitions', len(run.points))
+        for kind, msg in judge_two_keys(run, run._finals, ctype):
+            ch = [p['chosen'] for p in run.points]
+            res.violations.append(Violation(f'H9: {kind}', f'two keys in one bucket directory, {ctype} cache, schedule {ch}: {msg}', {'harness': 'H9-two-keys', 'choices': ch, 'ctype': ctype}))
+        if len(res.violations) > 10:
+            break
+    res.coverage['harness:H9-two-keys/' + ctype] = {'schedules': n, 'preemption_bound': bound}
+    return res
+
+
 def _explore(args):
     """explore the subtree below `root` (root=None: only the default schedule, returning the subtree roots)"""
     import tcv
@@ -327,8 +406,8 @@ def free_running_smoke(rounds=15):
 
 PLAN = {
     'quick': [('H1-empty', 2, False), ('H2-present-forced', 2, True), ('H4-happens-before', 2, True), ('H6-two-writers-reader', 3, False), ('H3-two-forced', 2, True),
-              ('H7-numpy-reader', 2, True), ('H8-frame-reader', 2, True)],
-    'thorough': [('H1-empty', 3, False), ('H2-present-forced', 3, True), ('H3-two-forced', 3, True), ('H4-happens-before', 4, True), ('H5-numpy', 2, True), ('H6-two-writers-reader', 8, False), ('H7-numpy-reader', 4, True), ('H8-frame-reader', 4, True)],
+              ('H7-numpy-reader', 2, True), ('H8-frame-reader', 2, True), ('H10-handover', 4, True)],
+    'thorough': [('H1-empty', 3, False), ('H2-present-forced', 3, True), ('H3-two-forced', 3, True), ('H4-happens-before', 4, True), ('H5-numpy', 2, True), ('H6-two-writers-reader', 8, False), ('H7-numpy-reader', 4, True), ('H8-frame-reader', 4, True), ('H10-handover', 5, True)],
 }
 
 
@@ -358,6 +437,9 @@ def run(tier, seed):
     jobs = jobs[k:] + jobs[:k]
     for r, _ in pmap(_explore, jobs, chunksize=2):
         res.merge(r)
+    for r in pmap(_explore_two_keys, [(2 if tier == 'quick' else 3, 'json'), (2, 'numpy')]):
+        res.merge(r)
+    res.coverage['two_keys_one_bucket'] = {k.split('/')[-1]: res.coverage.pop(k) for k in list(res.coverage) if k.startswith('harness:H9-two-keys/')}
     outs = res.coverage.pop('_outcomes', [])
     per = {h: res.coverage.pop(f'harness:{h}') for h, b, e in plan}
     res.coverage['per_harness'] = per
@@ -393,6 +475,9 @@ def replay(case):
     import tcv
 
     tcv.quiet_library()
+    if case.get('harness') == 'H9-two-keys':
+        run, finals = execute_two_keys(case['choices'], case.get('ctype', 'json'))
+        return [Violation(f'H9: {k}', m, case) for k, m in judge_two_keys(run, finals, case.get('ctype', 'json'))]
     procs = bool(case.get('procs'))
     run, computed, final = execute(case['harness'], case['choices'], procs)
     return [Violation(f'{case["harness"].split("-")[0]}{" (processes)" if procs else ""}: {k}', m, case) for k, m in judge(case['harness'], run, computed, final)]
